@@ -20,6 +20,7 @@ fn arg(args: &[String], name: &str) -> Option<String> {
 
 fn main() {
     interp::install_panic_hook();
+    interp::start_watchdog();
     let args: Vec<String> = std::env::args().collect();
     let mode = args.get(1).map(|s| s.as_str()).unwrap_or("");
     match mode {
@@ -37,7 +38,7 @@ fn main() {
                     std::process::exit(5);
                 }
             };
-            let (text, st) = interp::run_cases(&cases, 0);
+            let (text, st) = interp::run_cases_watched(cases, 0);
             let mut f = std::fs::File::create(&out).expect("cannot create output file");
             writeln!(f, "# seed {} tier {} profile {} property {}", seed,
                 if tier.thorough { "thorough" } else { "quick" },
@@ -70,7 +71,7 @@ fn main() {
                 }
                 cases.last_mut().unwrap().push(op.to_string());
             }
-            let (text, st) = interp::run_cases(&cases, 0);
+            let (text, st) = interp::run_cases_watched(cases, 0);
             std::fs::write(&out, text).expect("cannot write output file");
             println!(
                 "HARNESS cases={} discarded_overflow={} ops={} panics={}",
